@@ -24,6 +24,9 @@ var vc17Cases = []vc17Case{
 	{map[string]string{"index.txt": "{% import \"p.txt\" %}{{ P() }}{% if v == r %}T{% else %}F{% end %}", "p.txt": "{% macro P %}{% if v == r %}T{% else %}F{% end %}{% end %}"}, false, "TT"},
 	{map[string]string{"index.txt": "{{ render \"p.txt\" }}{% if v == r %}T{% else %}F{% end %}", "p.txt": "{% if v == r %}T{% else %}F{% end %}"}, false, "TT"},
 	{map[string]string{"index.txt": "{% extends \"l.txt\" %}{% macro B %}{% if v == r %}T{% else %}F{% end %}{% end %}", "l.txt": "{% if v == r %}T{% else %}F{% end %}{{ B() }}"}, false, "TT"},
+	// nested function literals: the inner one refers to the variable after the outer one did
+	{map[string]string{"index.txt": "{% f := func() bool { a := v == r; g := func() bool { return v == r }; return a && g() } %}{% if f() %}T{% else %}F{% end %}{% if v == r %}T{% else %}F{% end %}"}, false, "TT"},
+	{map[string]string{"index.txt": "{% macro M %}{% a := v == r %}{% g := func() bool { return v == r } %}{% if a && g() %}T{% else %}F{% end %}{% end %}{% if v == r %}T{% else %}F{% end %}{{ M() }}"}, false, "TT"},
 	// a write in a macro is seen at top level, and the other way round
 	{map[string]string{"index.txt": "{% macro M %}{% v = v + 1 %}{% end %}{{ M() }}{% if v == r + 1 %}T{% else %}F{% end %}"}, true, "T"},
 	{map[string]string{"index.txt": "{% macro M %}{% if v == r + 1 %}T{% else %}F{% end %}{% end %}{% v = v + 1 %}{{ M() }}"}, true, "T"},
@@ -41,13 +44,15 @@ func vc17_e2e() {
 	opts := &BuildOptions{Globals: native.Declarations{"v": (*int)(nil), "r": &r}}
 	tmpl, err := BuildTemplate(fsys, "index.txt", opts)
 	vassert(err == nil, "builds")
-	used := false
-	for _, name := range tmpl.UsedVars() {
+	used := 0
+	names := tmpl.UsedVars()
+	for i, name := range names {
 		if name == "v" {
-			used = true
+			used++
 		}
+		vassert(i == 0 || names[i-1] < name, "usedvars-is-sorted-without-duplicates")
 	}
-	vassert(used, "usedvars-reports-the-variable")
+	vassert(used == 1, "usedvars-reports-the-variable-once")
 	byPointer := vsym_bool()
 	vars := map[string]any{"v": x}
 	if byPointer {
